@@ -385,9 +385,11 @@ Definition replay_step (v : view) (w : wire) : view * N :=
   end.
 
 (* ---------------------------------------------------------------- channel ends of one cookie *)
-Record flags := { fl_refused_closed : bool; fl_close_asserts : bool }.
+(* [fl_cancel]: may the application drop a claim() future while it is running (true = the whole
+   public API; false = every claim is awaited to completion) *)
+Record flags := { fl_refused_closed : bool; fl_close_asserts : bool; fl_cancel : bool }.
 Definition this_flags : flags :=
-  {| fl_refused_closed := CLAIM_REFUSED_MARKS_CLOSED; fl_close_asserts := CLOSE_REPLY_ASSERTS |}.
+  {| fl_refused_closed := CLAIM_REFUSED_MARKS_CLOSED; fl_close_asserts := CLOSE_REPLY_ASSERTS; fl_cancel := true |}.
 
 (* the typestate of one handle: RawChannel{claimed, state = Open}; handles in state Closing/Closed
    send nothing any more and are dropped from the model.
@@ -406,28 +408,31 @@ Inductive hreq :=
 | QSend (v : payload)
 | QAddCap (n : N).
 
+(* the part of a client that handling a message from the broker reads or writes *)
+Record ccore := {
+  k_es : option est;                        (* senders[k] *)
+  k_er : option est;                        (* receivers[k] *)
+  k_pclose : gmap N (chan_end * bool);      (* close_channel_end: serial -> (end, claimed) *)
+  k_pclaim : gmap N (chan_end * N);         (* claim_channel_end: serial -> (end, waiting handle) *)
+  k_handles : gmap N handle }.
+
 Record cl := {
-  c_es : option est;                        (* senders[k] *)
-  c_er : option est;                        (* receivers[k] *)
-  c_pclose : gmap N (chan_end * bool);      (* close_channel_end: serial -> (end, claimed) *)
-  c_pclaim : gmap N (chan_end * N);         (* claim_channel_end: serial -> (end, waiting handle) *)
+  c_core : ccore;
   c_next : N;                               (* SerialMap::next (one counter per map in the Rust; serials only need to be fresh) *)
-  c_handles : gmap N handle;
   c_nexth : N;
   c_q : list hreq;
   c_up : list msg;                          (* client -> broker, in flight *)
   c_down : list msg }.                      (* broker -> client, in flight *)
 
-#[export] Instance eta_cl : Settable _ :=
-  settable! Build_cl <c_es; c_er; c_pclose; c_pclaim; c_next; c_handles; c_nexth; c_q; c_up; c_down>.
+#[export] Instance eta_ccore : Settable _ := settable! Build_ccore <k_es; k_er; k_pclose; k_pclaim; k_handles>.
+#[export] Instance eta_cl : Settable _ := settable! Build_cl <c_core; c_next; c_nexth; c_q; c_up; c_down>.
 
-Definition cl0 : cl :=
-  {| c_es := None; c_er := None; c_pclose := ∅; c_pclaim := ∅; c_next := 0; c_handles := ∅;
-     c_nexth := 0; c_q := []; c_up := []; c_down := [] |}.
+Definition core0 : ccore := {| k_es := None; k_er := None; k_pclose := ∅; k_pclaim := ∅; k_handles := ∅ |}.
+Definition cl0 : cl := {| c_core := core0; c_next := 0; c_nexth := 0; c_q := []; c_up := []; c_down := [] |}.
 
-Definition ent (c : cl) (e : chan_end) : option est := match e with ESender => c_es c | EReceiver => c_er c end.
-Definition set_ent (c : cl) (e : chan_end) (x : option est) : cl :=
-  match e with ESender => c <| c_es := x |> | EReceiver => c <| c_er := x |> end.
+Definition ent (c : ccore) (e : chan_end) : option est := match e with ESender => k_es c | EReceiver => k_er c end.
+Definition set_ent (c : ccore) (e : chan_end) (x : option est) : ccore :=
+  match e with ESender => c <| k_es := x |> | EReceiver => c <| k_er := x |> end.
 
 Record csys := {
   y_k : uuid;                               (* the cookie *)
@@ -440,10 +445,13 @@ Inductive cres := COk (y : csys) | CReject (c : conn) | CPanic (c : conn) (site 
                 | CDisabled                  (* the step is not enabled in this state *)
                 | CBrokerPanic (site : N).   (* an unreachable!() of broker/channel.rs: outside this property (C05/C11) *)
 
-Definition get (y : csys) (c : conn) : cl := default cl0 (y_cl y !! c).
 Definition put (y : csys) (c : conn) (x : cl) : csys := y <| y_cl ::= <[c := x]> |>.
+(* a message for a connection that is gone is not sent *)
 Definition push_down (y : csys) (c : conn) (m : msg) : csys :=
-  put y c (get y c <| c_down ::= fun l => l ++ [m] |>).
+  match y_cl y !! c with
+  | Some x => put y c (x <| c_down ::= fun l => l ++ [m] |>)
+  | None => y
+  end.
 
 (* --- application steps (public API on handles) *)
 Inductive aop :=
@@ -456,57 +464,63 @@ Inductive aop :=
 | ASend (hid : N) (v : payload)        (* Sender::start_send_item *)
 | AAddCap (hid : N) (n : N).           (* Receiver: items consumed, capacity returned *)
 
+Definition set_handle (x : cl) (hid : N) (h : option handle) : cl :=
+  x <| c_core; k_handles ::= match h with Some h => <[hid := h]> | None => delete hid end |>.
+Definition enq (x : cl) (r : hreq) : cl := x <| c_q ::= fun q => q ++ [r] |>.
+
 Definition app_step (fl : flags) (x : cl) (o : aop) : option cl :=
+  let hs := k_handles (c_core x) in
   match o with
   | ABind e =>
-      Some (x <| c_handles ::= <[c_nexth x := {| h_end := e; h_kind := HUnclaimed |}]> |> <| c_nexth ::= N.succ |>)
+      Some (set_handle x (c_nexth x) (Some {| h_end := e; h_kind := HUnclaimed |}) <| c_nexth ::= N.succ |>)
   | AClaim hid cap =>
-      match c_handles x !! hid with
+      match hs !! hid with
       | Some {| h_end := e; h_kind := HUnclaimed |} =>
-          Some (x <| c_handles ::= <[hid := {| h_end := e; h_kind := HClaiming |}]> |>
-                  <| c_q ::= fun q => q ++ [QClaim e cap hid] |>)
+          Some (enq (set_handle x hid (Some {| h_end := e; h_kind := HClaiming |})) (QClaim e cap hid))
       | _ => None
       end
   | AFinish hid =>
-      match c_handles x !! hid with
+      match hs !! hid with
       | Some {| h_end := e; h_kind := HResult true |} =>
-          Some (x <| c_handles ::= <[hid := {| h_end := e; h_kind := HClaimed true |}]> |>)
+          Some (set_handle x hid (Some {| h_end := e; h_kind := HClaimed true |}))
       | Some {| h_end := e; h_kind := HResult false |} =>
           (* Err path of claim(): `?` drops the end claimed and Open; the repaired shape marks it closed *)
-          let x1 := x <| c_handles ::= delete hid |> in
-          Some (if fl_refused_closed fl then x1 else x1 <| c_q ::= fun q => q ++ [QClose e true] |>)
+          let x1 := set_handle x hid None in
+          Some (if fl_refused_closed fl then x1 else enq x1 (QClose e true))
       | _ => None
       end
   | ADrop hid =>
-      match c_handles x !! hid with
+      match hs !! hid with
       | Some h =>
           let claimed := match h_kind h with HUnclaimed => false | _ => true end in
-          Some (x <| c_handles ::= delete hid |> <| c_q ::= fun q => q ++ [QClose (h_end h) claimed] |>)
+          let running := match h_kind h with HClaiming | HResult _ => true | _ => false end in
+          if running && negb (fl_cancel fl) then None else
+          Some (enq (set_handle x hid None) (QClose (h_end h) claimed))
       | None => None
       end
   | AUnbind hid =>
-      match c_handles x !! hid with
-      | Some {| h_end := _; h_kind := HUnclaimed |} => Some (x <| c_handles ::= delete hid |>)
+      match hs !! hid with
+      | Some {| h_end := _; h_kind := HUnclaimed |} => Some (set_handle x hid None)
       | _ => None
       end
   | AEstablish hid =>
-      match c_handles x !! hid with
+      match hs !! hid with
       | Some {| h_end := e; h_kind := HClaimed false |} =>
           (* the oneshot of the pending end was resolved with Ok: ChannelEndClaimed has been handled *)
-          match ent x e with
-          | Some EEstablished | Some EPeerClosed => Some (x <| c_handles ::= <[hid := {| h_end := e; h_kind := HClaimed true |}]> |>)
+          match ent (c_core x) e with
+          | Some EEstablished | Some EPeerClosed => Some (set_handle x hid (Some {| h_end := e; h_kind := HClaimed true |}))
           | _ => None
           end
       | _ => None
       end
   | ASend hid v =>
-      match c_handles x !! hid with
-      | Some {| h_end := ESender; h_kind := HClaimed true |} => Some (x <| c_q ::= fun q => q ++ [QSend v] |>)
+      match hs !! hid with
+      | Some {| h_end := ESender; h_kind := HClaimed true |} => Some (enq x (QSend v))
       | _ => None
       end
   | AAddCap hid n =>
-      match c_handles x !! hid with
-      | Some {| h_end := EReceiver; h_kind := HClaimed true |} => Some (x <| c_q ::= fun q => q ++ [QAddCap n] |>)
+      match hs !! hid with
+      | Some {| h_end := EReceiver; h_kind := HClaimed true |} => Some (enq x (QAddCap n))
       | _ => None
       end
   end.
@@ -523,18 +537,18 @@ Definition proc_step (k : uuid) (x : cl) : pres :=
       let x := x <| c_q := q |> in
       match r with
       | QClose e claimed =>
-          POk (x <| c_pclose ::= <[c_next x := (e, claimed)]> |> <| c_next ::= N.succ |>
+          POk (x <| c_core; k_pclose ::= <[c_next x := (e, claimed)]> |> <| c_next ::= N.succ |>
                  <| c_up ::= fun l => l ++ [CloseChannelEnd (c_next x) k e] |>)
       | QClaim e cap hid =>
-          POk (x <| c_pclaim ::= <[c_next x := (e, hid)]> |> <| c_next ::= N.succ |>
+          POk (x <| c_core; k_pclaim ::= <[c_next x := (e, hid)]> |> <| c_next ::= N.succ |>
                  <| c_up ::= fun l => l ++ [ClaimChannelEnd (c_next x) k (cap_end e cap)] |>)
       | QSend v =>
-          match c_es x with
+          match k_es (c_core x) with
           | Some _ => POk (x <| c_up ::= fun l => l ++ [SendItem k v] |>)
           | None => PPanic S_SEND_ITEM_ABSENT
           end
       | QAddCap n =>
-          match c_er x with
+          match k_er (c_core x) with
           | Some _ => POk (x <| c_up ::= fun l => l ++ [AddChannelCapacity k n] |>)
           | None => PPanic S_ADD_CAPACITY_ABSENT
           end
@@ -542,21 +556,21 @@ Definition proc_step (k : uuid) (x : cl) : pres :=
   end.
 
 (* --- the client handles the next message from the broker: the slice of [recv] for cookie k *)
-Inductive rres := ROk (x : cl) | RRej | RPan (site : N) | RNone.
+Inductive rres := ROk (x : ccore) | RRej | RPan (site : N).
 
-Definition deliver (x : cl) (hid : N) (ok : bool) : cl :=
-  match c_handles x !! hid with
-  | Some {| h_end := e; h_kind := HClaiming |} => x <| c_handles ::= <[hid := {| h_end := e; h_kind := HResult ok |}]> |>
+Definition deliver (x : ccore) (hid : N) (ok : bool) : ccore :=
+  match k_handles x !! hid with
+  | Some {| h_end := e; h_kind := HClaiming |} => x <| k_handles ::= <[hid := {| h_end := e; h_kind := HResult ok |}]> |>
   | _ => x      (* the future was dropped: `let _ = req.reply.send(..)` *)
   end.
 
-Definition crecv (fl : flags) (x : cl) (m : msg) : rres :=
+Definition crecv (fl : flags) (x : ccore) (m : msg) : rres :=
   match m with
   | CloseChannelEndReply s _ =>
-      match (c_pclose x !! s : option (chan_end * bool)) with
+      match (k_pclose x !! s : option (chan_end * bool)) with
       | None => RRej
       | Some (e, claimed) =>
-          let x1 := x <| c_pclose ::= delete s |> in
+          let x1 := x <| k_pclose ::= delete s |> in
           if claimed then
             match ent x e with
             | None => if fl_close_asserts fl then RPan S_CLOSE_ABSENT else ROk x1
@@ -571,10 +585,10 @@ Definition crecv (fl : flags) (x : cl) (m : msg) : rres :=
       | _ => RRej
       end
   | ClaimChannelEndReply s r =>
-      match (c_pclaim x !! s : option (chan_end * N)) with
+      match (k_pclaim x !! s : option (chan_end * N)) with
       | None => RRej
       | Some (e, hid) =>
-          let x1 := x <| c_pclaim ::= delete s |> in
+          let x1 := x <| k_pclaim ::= delete s |> in
           match e, r with
           | ESender, CLSenderClaimed _ | EReceiver, CLReceiverClaimed =>
               match ent x e with
@@ -591,15 +605,9 @@ Definition crecv (fl : flags) (x : cl) (m : msg) : rres :=
       | Some EPending => ROk (set_ent x mine (Some EEstablished))
       | _ => RRej
       end
-  | ItemReceived _ _ => match c_er x with Some EEstablished => ROk x | _ => RRej end
-  | AddChannelCapacity _ _ => match c_es x with Some EEstablished => ROk x | _ => RRej end
+  | ItemReceived _ _ => match k_er x with Some EEstablished => ROk x | _ => RRej end
+  | AddChannelCapacity _ _ => match k_es x with Some EEstablished => ROk x | _ => RRej end
   | _ => RRej
-  end.
-
-Definition recv_step (fl : flags) (x : cl) : rres :=
-  match c_down x with
-  | [] => RNone
-  | m :: d => crecv fl (x <| c_down := d |>) m
   end.
 
 (* --- the broker takes the next message of connection c: the channel arms of Model.handle for
@@ -610,7 +618,12 @@ Definition b_remove_end (y : csys) (e : chan_end) : cres :=
   | Some ch =>
       match chan_close ch e with
       | CloseDrop => COk (y <| y_ch := None |>)
-      | CloseNotify ch' o => COk (push_down (y <| y_ch := Some ch' |>) o (ChannelEndClosed (y_k y) e))
+      | CloseNotify ch' o =>
+          (* Broker::remove_channel_end: `if has o then notify else the channel is dropped` *)
+          match y_cl y !! o with
+          | Some _ => COk (push_down (y <| y_ch := Some ch' |>) o (ChannelEndClosed (y_k y) e))
+          | None => COk (y <| y_ch := None |>)
+          end
       | ClosePanic site => CBrokerPanic site
       end
   end.
@@ -705,8 +718,14 @@ Definition step (fl : flags) (y : csys) (s : cstep) : cres :=
       end
   | SRecv c =>
       match y_cl y !! c with
-      | Some x => match recv_step fl x with
-                  | ROk x' => COk (put y c x') | RRej => CReject c | RPan site => CPanic c site | RNone => CDisabled end
+      | Some x => match c_down x with
+                  | [] => CDisabled
+                  | m :: d => match crecv fl (c_core x) m with
+                              | ROk k' => COk (put y c (x <| c_down := d |> <| c_core := k' |>))
+                              | RRej => CReject c
+                              | RPan site => CPanic c site
+                              end
+                  end
       | None => CDisabled
       end
   | SBroker c =>
@@ -733,14 +752,14 @@ Fixpoint run (fl : flags) (y : csys) (l : list cstep) : cres :=
   end.
 
 (* the state right after client [c0] handled the CreateChannelReply for cookie k: its claimed end
-   is Pending in its map, it holds the pending end and the unclaimed other end; [clients] are the
+   is Pending in its map, it holds the pending end and the unclaimed other end; [others] are the
    other connections *)
 Definition created (k : uuid) (c0 : conn) (e : chan_end_cap) (others : list conn) : csys :=
   let mine := end_of_cap e in
-  let x0 := set_ent cl0 mine (Some EPending)
-              <| c_handles := {[ 0 := {| h_end := mine; h_kind := HClaimed false |};
-                                 1 := {| h_end := other_end mine; h_kind := HUnclaimed |} ]} |>
-              <| c_nexth := 2 |> in
+  let x0 := cl0 <| c_core := set_ent core0 mine (Some EPending)
+                               <| k_handles := {[ 0 := {| h_end := mine; h_kind := HClaimed false |};
+                                                  1 := {| h_end := other_end mine; h_kind := HUnclaimed |} ]} |> |>
+                <| c_nexth := 2 |> in
   {| y_k := k;
      y_ch := Some (match e with
                    | CSender => {| ch_s := Claimed c0 0; ch_r := Unclaimed |}
